@@ -182,3 +182,13 @@ package standard
 //@   at call ScheduleJob#1: assert arg2 == sprintf("Prepare sync committee messages for slot %d", duty.slot)
 //@   at call ScheduleJob#1: assert ns(arg3) == startOfSlotNs(duty.slot) - (s.slotDuration * 6) / 4
 //@   ensures calls(ScheduleJob) == 1
+//@
+//@ // ---- callers of the sync committee scheduling (C17 sweep) ----
+//@ func (*Service).handleAltairForkEpoch$1
+//@   requires s.handlingAltair
+//@ func (*Service).handleAltairForkEpoch$2
+//@   requires s.handlingAltair
+//@ func (*Service).epochTicker
+//@   requires data != nil && nolocks()
+//@ func (*Service).startEpochTicker$2
+//@   requires data != nil
